@@ -144,6 +144,13 @@ def run(repo, res, tier):
     n = SK.skips_rule(repo, res, tables.load("skips")["row"], only={"dfa::DFA::do_check_ambiguity_best_effort", "dfa::DFA::check_ambiguity_best_effort"})
     res.floor("SKIPS", n, 6)
     intern_dedup(repo, res)
+    from . import c03, sk_bash
+    # two within-word expressions with the same language and symbol order are one symbol only if what is interned is the minimised,
+    # trimmed automaton renumbered AFTER trimming (a canonical form); and `||` is transparent only if every level is visited
+    c03.structure_rules(repo, res)
+    c03.minonce(repo, res)
+    sk_bash.fb_rule(repo, res, tier)
+    sk_bash.scope_rule(repo, res, tier)
     from . import common
     # `||` behaves like `|` when matching: every pass over the expression treats a Fallback node exactly as it treats an
     # Alternative (both children lists traversed); the one tabled difference is the level assignment
